@@ -1257,6 +1257,8 @@ package memberlist
 //@ func (*Memberlist).schedule(m)
 //@   safety [C20]
 //@   requires ok: mlNet(m)
+//@   at go (*Memberlist).triggerFunc: assert positive-stagger [C20]: stagger > 0
+//@   at go (*Memberlist).pushPullTrigger: assert positive-interval [C20]: m.config.PushPullInterval > 0
 //@ func (*Memberlist).deschedule(m)
 //@   safety [C20]
 //@   requires ok: mlNet(m)
@@ -1365,3 +1367,49 @@ package memberlist
 //@   at call (*Config).IPAllowed: set $ipaCalled := true
 //@   at call (*Config).IPAllowed: set $ipaRes := res
 //@   ensures allow-only-if-checked [C18]: result == nil ==> len(m.config.CIDRsAllowed) == 0 || $srcStr == "pipe" || ($ipaCalled && $ipaRes == 0)
+
+// ---------------------------------------------------------------------
+// Zero-annotation no-panic sweep of further entry points: the stream accept loop, the background triggers, the
+// deprecated send API and the listeners of the concrete UDP/TCP transport (C13: nothing received crashes the node;
+// C20: nothing the application calls does). Not swept: packetListen and packetHandler (what arrives on the transport's
+// channel and what sits in the hand-off lists is arbitrary in the model, so their callees' preconditions about a
+// non-nil sender address cannot be established there; the callees themselves are under contract).
+// ---------------------------------------------------------------------
+//@ func (*Memberlist).streamListen(m)
+//@   safety [C13]
+//@   requires ok: mlNet(m)
+//@ func (*Memberlist).pushPull(m)
+//@   safety [C20]
+//@   requires ok: mlNet(m)
+//@ func (*Memberlist).pushPullTrigger(m, stop)
+//@   safety [C20]
+//@   requires ok: mlNet(m)
+//@   requires interval: m.config.PushPullInterval > 0      // established where the goroutine is started (schedule/go-site obligations)
+//@ func (*Memberlist).triggerFunc(m, stagger, C, stop, f)
+//@   safety [C20]
+//@   requires ok: mlNet(m) && f != nil
+//@   requires stagger: stagger > 0                          // established where the goroutine is started
+//@ func (*Memberlist).checkBroadcastQueueDepth(m)
+//@   safety [C20]
+//@   requires ok: mlNet(m)
+//@ func (*Memberlist).SendTo(m, to, msg)
+//@   safety [C20]
+//@   requires ok: mlNet(m) && to != nil
+//@ func (*Memberlist).SendToUDP(m, to, msg)
+//@   safety [C20]
+//@   requires ok: mlNet(m) && to != nil
+//@ func (*Memberlist).SendToTCP(m, to, msg)
+//@   safety [C20]
+//@   requires ok: mlNet(m) && to != nil
+//@ func (*NetTransport).udpListen(t, udpLn)
+//@   safety [C13]
+//@   requires ok: t != nil && udpLn != nil && t.logger != nil
+//@ func (*NetTransport).tcpListen(t, tcpLn)
+//@   safety [C13]
+//@   requires ok: t != nil && tcpLn != nil && t.logger != nil
+//@ func (*NetTransport).IngestPacket(t, conn, addr, now, shouldClose)
+//@   safety [C13]
+//@   requires ok: t != nil && conn != nil && t.logger != nil
+//@ func (*NetTransport).IngestStream(t, conn)
+//@   safety [C13]
+//@   requires ok: t != nil
